@@ -1,5 +1,6 @@
 """C11 - value comparison is a total preorder and every consumer agrees with it."""
 
+import base64
 import calendar
 import collections
 import copy
@@ -13,6 +14,7 @@ import re
 import subprocess
 import sys
 import time
+import zlib
 from fractions import Fraction
 
 try:
@@ -1076,6 +1078,11 @@ def streams(ctx):
         run_oracle(ctx, im, 'arrayIndexOf', xs, needle, ('raw', index))
         run_oracle(ctx, im, 'arrayLastIndexOf', xs, needle, ('raw', index))
 
+    # ---- SCALE axis: every consumer that takes a collection, at collection sizes 0 .. 1000 ---------------------------------------------
+    ts = ctx.elapsed()
+    scale_stream(ctx, im, pool, classes, by_type)
+    ctx.notes.append(f'wall: scale stream {ctx.elapsed() - ts:.1f}s')
+
     # ---- tie keys, host-boundary values, histories (all after the stateless streams: a history never perturbs them) -------------------
     t0 = ctx.elapsed()
     tie_stream(ctx, im, pool, impl)
@@ -1195,6 +1202,8 @@ def ref_compare(a, b):
         inf = float('inf')
         if a in (inf, -inf) or b in (inf, -inf):
             return sign((a > b) - (a < b))
+        if type(a) is int and type(b) is int:  # pylint: disable=unidiomatic-typecheck
+            return (a > b) - (a < b)
         return sign(Fraction(a) - Fraction(b))
     if ta == 'boolean':
         return sign(int(a) - int(b))
@@ -1219,6 +1228,457 @@ def ref_compare(a, b):
 class RefImpl:
     """Stands in for Impl where an oracle only needs `cmp` (so the consumer oracles can be run against the reference)."""
     cmp = staticmethod(ref_compare)
+
+
+# ---------------------------------------------------------------------------------------------------------------------
+# SCALE: the consumers that take a COLLECTION (arraySort with / without a compare function, dataSort with 1..3 sort fields,
+# mathMin / mathMax with many arguments, arrayIndexOf / arrayLastIndexOf in long arrays) at collection sizes 0 .. 1000 (thorough: .. 4097).
+# The statement has no size bound; a consumer that switches strategy at a size threshold (runs / chunks / blocks / a key-based
+# fast path) is only exercised by inputs beyond that threshold, whatever the threshold is.
+# ---------------------------------------------------------------------------------------------------------------------
+
+SCALE_SIZES = [0, 1, 2, 9, 10, 11, 16, 17, 64, 65, 100, 101, 127, 128, 129, 256, 300, 1000]
+SCALE_SIZES_THOROUGH = sorted(SCALE_SIZES + [3, 4, 5, 7, 8, 31, 32, 33, 63, 99, 255, 257, 500, 511, 512, 513, 999, 1001, 1023, 1024, 1025, 2000, 4097])
+
+SCALE_PRELUDE = '''
+function c11sfwd(a, b):
+    return systemCompare(a, b)
+endfunction
+
+function c11srev(a, b):
+    return systemCompare(b, a)
+endfunction
+
+function c11sfirst(a, b):
+    return systemCompare(arrayGet(a, 0), arrayGet(b, 0))
+endfunction
+
+function c11sfirstrev(a, b):
+    return systemCompare(arrayGet(b, 0), arrayGet(a, 0))
+endfunction
+'''
+
+# compare functions of the scale stream: name -> (direction, compares element 0 of array rows only, defined in a script)
+SCALE_FNS = {'fwd': (1, False, False), 'rev': (-1, False, False), 'first': (1, True, False), 'firstrev': (-1, True, False),
+             'sfwd': (1, False, True), 'srev': (-1, False, True), 'sfirst': (1, True, True), 'sfirstrev': (-1, True, True)}
+
+
+def scale_order(fn, cmpf):
+    """the order a compare function of SCALE_FNS asks for, over the comparison cmpf"""
+    sgn, first, _ = SCALE_FNS[fn]
+    if first:
+        return lambda x, y: _neg(sgn, cmpf(x[0], y[0]))
+    return lambda x, y: _neg(sgn, cmpf(x, y))
+
+
+def _neg(sgn, c):
+    return sgn * c if is_int(c) else c
+
+
+def scale_sort_call(im, arr, fn):
+    """arraySort(arr) / arraySort(arr, fn) the way a script reaches it"""
+    if fn is None:
+        return im.call('arraySort', arr)
+    sgn, first, script = SCALE_FNS[fn]
+    if not script:
+        if first:
+            return im.call('arraySort', arr, lambda args, options: sgn * im.value.value_compare(args[0][0], args[1][0]))
+        return im.call('arraySort', arr, HCmp(im, sgn))
+    cache = im.__dict__.setdefault('scale_scripts', {})
+    try:
+        if fn not in cache:
+            cache[fn] = im.parser.parse_script(SCALE_PRELUDE + f'\nreturn arraySort(xs, c11{fn})\n')
+        return im.runtime.execute_script(cache[fn], {'globals': {'xs': arr}, 'maxStatements': 5000000})
+    except Exception as exc:  # pylint: disable=broad-except
+        return 'EXC:' + type(exc).__name__
+
+
+def check_sorted_stable_scale(perm, inp, cmpf, strides=True):
+    """ordered, permutation, stable on a long result: all pairs up to 17 elements; beyond that every pair of positions that is a power
+    of two apart (adjacent pairs suffice when cmpf is transitive - the other strides do not rely on that); strides=False: adjacent only"""
+    n = len(inp)
+    if perm is None or sorted(perm) != list(range(n)):
+        return 'not a permutation of the input'
+    if n <= 17:
+        return check_sorted_stable(perm, inp, cmpf)
+    stride = 1
+    while stride < n:
+        for k in range(n - stride):
+            m = k + stride
+            c = cmpf(inp[perm[k]], inp[perm[m]])
+            if not is_int(c) or c > 0:
+                return f'not ordered: positions {k},{m}'
+            if c == 0 and perm[k] > perm[m]:
+                return f'not stable: positions {k},{m}'
+        if not strides:
+            break
+        stride *= 2
+    return None
+
+
+def o_sort_scale(im, xs, fn=None):
+    """arraySort of a long array, without / with a (well-behaved) compare function: the same array object, an ordered stable permutation
+    under value_compare AND under the reference comparison (in the order the compare function asks for)"""
+    arr = list(xs)
+    out = scale_sort_call(im, arr, fn)
+    if out is not arr:
+        return ('the sorted input array', 'another object' if isinstance(out, list) else spec_safe(out))
+    perm = perm_of(out, xs)
+    why = check_sorted_stable_scale(perm, xs, scale_order(fn or 'fwd', im.cmp))
+    if why is None:
+        why = check_sorted_stable_scale(perm, xs, scale_order(fn or 'fwd', ref_compare), strides=False)
+        why = why and why + ' (reference comparison)'
+    return None if why is None else (f'ordered stable permutation ({len(xs)} elements, compare function {fn})', why)
+
+
+def o_data_sort_scale(im, rows, sorts):
+    """dataSort of many rows: the same array object, ordered by the sort fields in their directions, a permutation, stable - under
+    value_compare AND under the reference comparison"""
+    arr = list(rows)
+    out = im.call('dataSort', arr, [list(s) for s in sorts])
+    if out is not arr:
+        return ('the sorted data array', 'another object' if isinstance(out, list) else spec_safe(out))
+    perm = perm_of(out, rows)
+    why = check_sorted_stable_scale(perm, rows, row_cmp(im, sorts))
+    if why is None:
+        why = check_sorted_stable_scale(perm, rows, row_cmp(RefImpl, sorts), strides=False)
+        why = why and why + ' (reference comparison)'
+    return None if why is None else (f'{len(rows)} rows ordered by the sort keys {sorts}, stable', why)
+
+
+def o_minmax_ref(im, xs):
+    """mathMax / mathMin of many arguments against the reference comparison: an argument, greatest / least, the first among equals"""
+    mx, mn = im.call('mathMax', *xs), im.call('mathMin', *xs)
+    if not xs:
+        return None if mx is None and mn is None else ([None, None], [spec_safe(mx), spec_safe(mn)])
+    for name, res, sgn in (('mathMax', mx, 1), ('mathMin', mn, -1)):
+        best = 0
+        for i in range(1, len(xs)):
+            if ref_compare(xs[i], xs[best]) * sgn > 0:
+                best = i
+        if xs[best] is not res and not _same_scalar(xs[best], res):
+            return (f'{name} of {len(xs)} arguments returns the first {"greatest" if sgn > 0 else "least"} one: argument {best}',
+                    {'result': spec_safe(res), 'result_index': next((i for i, v in enumerate(xs) if v is res), None)})
+    return None
+
+
+def o_index_of_ref(im, xs, needle, index):
+    """arrayIndexOf / arrayLastIndexOf in a long array against the reference comparison: the first / last equal position from the start index"""
+    args = [needle] + ([] if index is None else [index])
+    got = [im.call('arrayIndexOf', list(xs), *args), im.call('arrayLastIndexOf', list(xs), *args)]
+    eq = [i for i, v in enumerate(xs) if ref_compare(v, needle) == 0]
+    n = len(xs)
+    if index is None:
+        want = [eq[0] if eq else -1, eq[-1] if eq else -1]
+    elif index >= n:
+        want = [-1, -1]
+    else:
+        want = [next((i for i in eq if i >= index), -1), next((i for i in reversed(eq) if i <= index), -1)]
+    return None if got == want and all(is_int(g) for g in got) else (want, got)
+
+
+SCALE_LEADS = [[1, 1.0], [2, 2.0], [0, 0.0, -0.0], [None], ['a'], ['b'], [''], [True], [False], [[1], [1.0]], [{'k': 1}, {'k': 1.0}],
+               [datetime.date(2020, 1, 1), datetime.datetime(2020, 1, 1)], [-1, -1.0], ['aa'], [[]], [{}], [0.5]]
+SCALE_PITFALLS = [[True, False, 0, 1, 2, 0.5, 1.0, -1], [True, False, 0.0, 2.0, 0.5], [True, False], ['b', 'a', '', 'B', 'aa'],
+                  [0, 1, 2, -1, 10 ** 15], [datetime.date(2020, 1, 2), datetime.datetime(2020, 1, 1, 5), datetime.date(2019, 12, 31)],
+                  [None, True, 0], [None, False, 0.0, ''], [1, True, 1.0, '1', [1]]]
+SCALE_FAMILIES = ['ties', 'mixed', 'onetype', 'numbers', 'strings', 'pitfall', 'rows']
+SCALE_ARRANGEMENTS = ['random', 'random', 'random', 'asc', 'desc', 'asc-tail', 'runs', 'allsame']
+
+
+def scale_values(rng, fam, n, pool, classes, by_type):
+    """n values of one family (the arrangement is applied afterwards)"""
+    if fam == 'rows':
+        d1, d2 = rng.choice([1, 2, 3, 8]), rng.choice([1, 2, 5, max(1, n)])
+        leads = rng.sample(SCALE_LEADS, d1)
+        return [[clone(rng.choice(rng.choice(leads))), rng.randrange(d2), i] for i in range(n)]
+    if fam == 'numbers':
+        m = rng.choice([1, 2, 5, max(1, n), 4 * n + 1])
+        out = []
+        for _ in range(n):
+            x = rng.randrange(-m, m + 1)
+            r = rng.random()
+            out.append(x if r < 0.5 else (float(x) if r < 0.8 else x + 0.5))
+        return out
+    if fam == 'strings':
+        m = rng.choice([1, 2, 3])
+        return [''.join(rng.choice('ab\x00\xe9\uffff\U00010000') for _ in range(rng.randrange(m + 1))) for _ in range(n)]
+    if fam == 'ties':
+        src = rng.choice(classes) + rng.choice(classes) + rng.choice(classes)
+    elif fam == 'onetype':
+        src = [pool[i] for i in by_type[rng.choice(sorted(by_type))]]
+    elif fam == 'pitfall':
+        src = rng.choice(SCALE_PITFALLS)
+    else:
+        src = pool
+    return [clone(rng.choice(src)) for _ in range(n)]
+
+
+def scale_arrange(rng, xs, how, cmpf):
+    """the values in a given arrangement w.r.t. the order cmpf: as generated, ascending, descending, ascending with a disturbed tail,
+    ascending runs one after the other, one value n times (distinct instances for containers)"""
+    n = len(xs)
+    if how == 'random' or n < 2:
+        return xs
+    if how == 'allsame':
+        return [clone(xs[0]) for _ in range(n)]
+    key = functools.cmp_to_key(cmpf)
+    if how == 'asc':
+        return sorted(xs, key=key)
+    if how == 'desc':
+        return sorted(xs, key=key, reverse=True)
+    if how == 'asc-tail':
+        out = sorted(xs, key=key)
+        k = min(n - 1, rng.choice([1, 2, 3, max(1, n // 10)]))
+        tail = out[n - k - 1:]
+        rng.shuffle(tail)
+        return out[:n - k - 1] + tail[::-1]
+    run = rng.choice([2, 8, 32, 64, 100])
+    out = []
+    for i in range(0, n, run):
+        out.extend(sorted(xs[i:i + run], key=key))
+    return out
+
+
+def scale_rows(rng, n):
+    """n data rows with MANY duplicates in the leading sort fields: field a holds members of 1 / 2 / 3 / 8 classes of equal-comparing
+    values (in different spellings: 1 / 1.0, date / datetime, equal containers), field b one of 1 / 2 / 5 / n numbers, c any of n, id = row number"""
+    d1, d2 = rng.choice([1, 2, 3, 8]), rng.choice([1, 2, 5, max(1, n)])
+    leads = rng.sample(SCALE_LEADS, d1)
+    pmiss = rng.choice([0, 0, 0.05, 0.3])
+    rows = []
+    for i in range(n):
+        row = {}
+        if rng.random() >= pmiss:
+            row['a'] = clone(rng.choice(rng.choice(leads)))
+        if rng.random() >= pmiss:
+            x = rng.randrange(d2)
+            row['b'] = x if rng.random() < 0.7 else float(x)
+        row['c'] = rng.randrange(max(1, n))
+        row['id'] = i
+        rows.append(row)
+    return rows
+
+
+def scale_sorts(rng, nf):
+    fields = ['a', 'b', 'c'][:nf]
+    r = rng.random()
+    if r < 0.15:
+        rng.shuffle(fields)
+    elif r < 0.25:
+        fields[rng.randrange(nf)] = 'zz'      # a field no row has: all rows tie on it
+    return [[f] + ([rng.random() < 0.5] if rng.random() < 0.85 else []) for f in fields]
+
+
+def _unwrap(a):
+    return a[1] if isinstance(a, tuple) and a and a[0] in ('raw', 'sorts') else a
+
+
+def scale_fails(im, name, raw):
+    """None (the property holds on this input) or (expected, actual)"""
+    try:
+        return ORACLES[name](im, *raw)
+    except Exception as exc:  # pylint: disable=broad-except
+        return ('no exception', 'EXC:' + type(exc).__name__ + ': ' + str(exc)[:200])
+
+
+SCALE_PLAIN_LIMIT = 12000       # the framework keeps a witness of up to 20000 characters replayable
+
+
+def scale_witness(ctx, im, name, args, res):
+    """A failing input of a collection oracle -> a replayable witness: the collection (first argument) is reduced by removing chunks
+    while the oracle still fails (bounded effort; an input at a size threshold cannot shrink); a witness that is still long is stored packed
+    (zlib + base64 of the same JSON `args`) because the framework truncates long witnesses."""
+    raw = [_unwrap(a) for a in args]
+    xs = list(raw[0])
+    budget = 80
+    chunk = len(xs) // 2
+    while chunk >= 1 and budget > 0:
+        i = 0
+        while i < len(xs) and budget > 0:
+            cand = xs[:i] + xs[i + chunk:]
+            budget -= 1
+            r = scale_fails(im, name, [cand] + raw[1:])
+            if r is not None:
+                xs, res = cand, r
+            else:
+                i += chunk
+        chunk //= 2
+    spec_args = [spec_arg(xs)] + [spec_arg(a) for a in args[1:]]
+    inp = {'oracle': name, 'args': spec_args, 'tz': os.environ.get('TZ', ''), 'collection_size': len(xs)}
+    text = json.dumps(spec_args, ensure_ascii=True, separators=(',', ':'))
+    if len(text) > SCALE_PLAIN_LIMIT:
+        del inp['args']
+        inp['packed_args'] = base64.b64encode(zlib.compress(text.encode('ascii'), 9)).decode('ascii')
+        inp['note'] = 'packed_args = base64(zlib(JSON)) of the argument list in the format of "args" (the collection is too long to be kept as text)'
+    ctx.witness(name, inp, res[0], res[1])
+
+
+def scale_stream(ctx, im, pool, classes, by_type):
+    sizes = ctx.scale(SCALE_SIZES, SCALE_SIZES_THOROUGH)
+    st = ctx.stream('scale', 'SCALE axis - every consumer of the comparison that takes a collection, at collection sizes '
+                             f'{sizes}: arraySort without a compare function (families: few classes of equal-comparing but distinguishable '
+                             'values, all types mixed, one type, numbers int / float with few or many duplicates, strings, bool / int / float '
+                             'look-alikes, array rows [k1, k2, i]; arrangements: as generated, ascending, descending, ascending with a disturbed '
+                             'tail, ascending runs, one value n times) and with a compare function (host callable and script function; forward, '
+                             'reverse, by element 0 of array rows so that most rows tie); dataSort with 1, 2, 3 sort fields in mixed directions over rows '
+                             'with many duplicates in the leading fields (1 / 2 / 3 / 8 distinct first-field values in different spellings, missing '
+                             'fields, a sort field no row has; as generated, pre-sorted on the first field, fully sorted, reversed); mathMin / mathMax '
+                             'with that many arguments (the extreme first / last / in the middle / several times); arrayIndexOf / arrayLastIndexOf in '
+                             'arrays that long (needle absent / first / last / middle / repeated / in another spelling; start index none, 0, at, after, '
+                             'last, length). Implementation vs model (permutation, min / max, index; compare-function sorts are host-only: the '
+                             'model has no function calls) + the oracles of the statement under value_compare AND under the reference '
+                             'comparison: same array object, ordered (all pairs up to 17 elements, beyond that all pairs of positions a power '
+                             'of two apart), permutation, stable; an argument that is least / greatest and the first such; the first / last '
+                             'equal position. non-trivial = at least two elements / rows / arguments')
+    rng = ctx.rng('scale')
+    reps = ctx.scale(2, 4)
+    cases = []       # (kind, payload, model request or None)
+    for n in sizes:
+        for _rep in range(reps if n <= 300 else max(1, reps // 3)):
+            # arraySort without a compare function: every family once
+            for fam in SCALE_FAMILIES:
+                xs = scale_arrange(rng, scale_values(rng, fam, n, pool, classes, by_type), rng.choice(SCALE_ARRANGEMENTS), ref_compare)
+                cases.append(('arraySort', (xs, None, fam)))
+            if _rep == 0:
+                # every look-alike source at every size: arrays that are homogeneous for Python (all int / float / bool instances, all str, all date
+                # instances) are what a size-triggered native-sort fast path would be keyed on
+                for src in SCALE_PITFALLS:
+                    xs = scale_arrange(rng, [rng.choice(src) for _ in range(n)], rng.choice(SCALE_ARRANGEMENTS), ref_compare)
+                    cases.append(('arraySort', (xs, None, 'pitfall')))
+            # arraySort with a compare function
+            for fn in sorted(SCALE_FNS):
+                first = SCALE_FNS[fn][1]
+                fam = 'rows' if first else rng.choice(SCALE_FAMILIES)
+                xs = scale_values(rng, fam, n, pool, classes, by_type)
+                xs = scale_arrange(rng, xs, rng.choice(SCALE_ARRANGEMENTS), scale_order(fn, ref_compare))
+                cases.append(('arraySort-fn', (xs, fn, fam)))
+            # dataSort: 1, 2, 3 sort fields x two duplicate profiles
+            for nf in (1, 2, 3, rng.choice([2, 3])):
+                rows = scale_rows(rng, n)
+                sorts = scale_sorts(rng, nf)
+                how = rng.choice(['random', 'random', 'lead', 'asc', 'desc'])
+                if how == 'lead':
+                    rows = scale_arrange(rng, rows, 'asc', row_cmp(RefImpl, sorts[:1]))
+                elif how != 'random':
+                    rows = scale_arrange(rng, rows, how, row_cmp(RefImpl, sorts))
+                cases.append(('dataSort', (rows, sorts, how)))
+            # mathMin / mathMax with n arguments
+            for fam in ('ties', 'mixed', 'numbers', 'rows', 'pitfall'):
+                base = scale_values(rng, fam, n, pool, classes, by_type)
+                srt = sorted(base, key=functools.cmp_to_key(ref_compare))
+                for how in ('asis', 'first', 'last', 'middle', 'twice'):
+                    xs = list(base)
+                    if n >= 2 and how != 'asis':
+                        for ext in (srt[0], srt[-1]):       # a least and a greatest argument: moved to the given place / given a second, distinguishable copy
+                            at = next((i for i, v in enumerate(xs) if v is ext), None)
+                            if at is None:
+                                continue
+                            if how == 'twice':
+                                xs[(at + 1 + rng.randrange(n - 1)) % n] = clone(respell(ext)) if rng.random() < 0.5 else clone(ext)
+                            else:
+                                xs.insert({'first': 0, 'last': n - 1, 'middle': n // 2}[how], xs.pop(at))
+                    elif how != 'asis':
+                        continue
+                    cases.append(('minmax', (xs, fam, how)))
+            # arrayIndexOf / arrayLastIndexOf in an array of n elements
+            for fam in ('rows', 'numbers', rng.choice(['ties', 'mixed', 'pitfall', 'strings'])):
+                xs = scale_values(rng, fam, n, pool, classes, by_type)
+                cands = [i for i, v in enumerate(xs) if not callable(v)]
+                for where in ('absent', 'first', 'last', 'middle', 'any'):     # where the needle is taken from x two start indices
+                    if where == 'absent' or not cands:
+                        needle = rng.choice(['c11-absent', -12345.5, [['c11-absent']], {'c11': 'absent'}])
+                        p = 0
+                    else:
+                        p = {'first': 0, 'last': n - 1, 'middle': n // 2}.get(where, rng.randrange(n))
+                        if callable(xs[p]):
+                            p = min(cands, key=lambda i, p=p: abs(i - p))
+                        needle = clone(xs[p]) if rng.random() < 0.6 else clone(respell(xs[p]))
+                    for index in [None, rng.choice([0, p, p + 1, max(0, p - 1), max(0, n - 1), n, n // 2, float(n // 2), rng.randrange(n + 1)])]:
+                        cases.append(('indexOf', (xs, needle, index, where)))
+    # the model
+    reqs, slots = [], []
+    encd = []
+    ecache = {}
+    for kind, payload in cases:
+        if id(payload[0]) not in ecache:
+            ecache[id(payload[0])] = [enc(v) for v in payload[0]]      # (the arrays stay alive in `cases`)
+        e = ecache[id(payload[0])]
+        if kind == 'indexOf':
+            e = [e, enc(payload[1])]
+        encd.append(e)
+        first = len(reqs)
+        if kind == 'arraySort':
+            reqs.append({'op': 'sort', 'xs': e})
+        elif kind == 'dataSort':
+            reqs.append({'op': 'dataSort', 'rows': e, 'sorts': payload[1]})
+        elif kind == 'minmax':
+            reqs.append({'op': 'minmax', 'xs': e})
+        elif kind == 'indexOf' and (payload[2] is None or len(payload[0]) <= 129):       # long arrays: half of the queries go to the model
+            base = {'xs': e[0], 'v': e[1]}
+            r1, r2 = dict(base, op='indexOf'), dict(base, op='lastIndexOf')
+            if payload[2] is not None:
+                r1['index'] = int(payload[2])
+                r2['index'] = int(payload[2])
+            reqs.extend([r1, r2])
+        slots.append((first, len(reqs)))
+    resps = ctx.driver.batch(reqs)
+    fired = {}
+
+    def oracle(name, *args):
+        if fired.get(name, 0) >= 3:       # at most three (long) witnesses per oracle
+            return
+        res = scale_fails(im, name, [_unwrap(a) for a in args])
+        if res is not None:
+            fired[name] = fired.get(name, 0) + 1
+            scale_witness(ctx, im, name, list(args), res)
+
+    def model(case, got, want):
+        ctx.disagreements_checked += 1
+        if got != want:
+            ctx.disagree('scale', case(), got, want)
+
+    for (kind, payload), e, (lo, hi) in zip(cases, encd, slots):
+        resp = resps[lo:hi]
+        n = len(payload[0])
+        dg = digest(e)
+        if kind == 'arraySort':
+            xs, _fn, fam = payload
+            st.case([kind, dg], nontrivial=n >= 2, tags=[f'arraySort:n{n}', f'arraySort:{fam}'])
+            arr = list(xs)
+            out = im.call('arraySort', arr)
+            model(lambda xs=xs: {'values': [spec(v) for v in xs]}, perm_of(out, xs), resp[0].get('perm', resp[0]))
+            oracle('arraySort-scale', xs)
+        elif kind == 'arraySort-fn':
+            xs, fn, fam = payload
+            st.case([kind, dg, fn], nontrivial=n >= 2, tags=[f'arraySort-fn:n{n}', f'arraySort-fn:{fn}'])
+            oracle('arraySort-scale', xs, ('raw', fn))
+        elif kind == 'dataSort':
+            rows, sorts, how = payload
+            st.case([kind, dg, sorts], nontrivial=n >= 2, tags=[f'dataSort:n{n}', f'dataSort:keys{len(sorts)}', f'dataSort:{how}'])
+            arr = list(rows)
+            out = im.call('dataSort', arr, [list(s) for s in sorts])
+            model(lambda rows=rows, sorts=sorts: {'rows': [spec(r) for r in rows], 'sorts': sorts}, perm_of(out, rows), resp[0].get('perm', resp[0]))
+            oracle('dataSort-scale', rows, ('raw', sorts))
+        elif kind == 'minmax':
+            xs, fam, how = payload
+            st.case([kind, dg], nontrivial=n >= 2, tags=[f'minmax:n{n}', f'minmax:extreme-{how}'])
+            got = {'max': enc_safe(im.call('mathMax', *xs)), 'min': enc_safe(im.call('mathMin', *xs))}
+            model(lambda xs=xs: {'values': [spec(v) for v in xs]}, got, {'max': resp[0].get('max', resp[0]), 'min': resp[0].get('min', resp[0])})
+            oracle('mathMinMax', xs)
+            oracle('mathMinMax-ref', xs)
+        else:
+            xs, needle, index, where = payload
+            st.case([kind, dg, index], nontrivial=n >= 1, tags=[f'indexOf:n{n}', f'indexOf:{where}'])
+            args = [needle] + ([] if index is None else [index])
+            got = [im.call('arrayIndexOf', list(xs), *args), im.call('arrayLastIndexOf', list(xs), *args)]
+            if resp:
+                model(lambda xs=xs, needle=needle, index=index: {'values': [spec(v) for v in xs], 'needle': spec(needle), 'index': index}, got,
+                      [resp[0].get('r', resp[0]), resp[1].get('r', resp[1])])
+            oracle('arrayIndexOf', xs, needle, ('raw', index))
+            oracle('arrayLastIndexOf', xs, needle, ('raw', index))
+            oracle('arrayIndexOf-ref', xs, needle, ('raw', index))
+    ctx.notes.append(f'scale: sizes {sizes}, {len(cases)} cases ({hist([c[0] for c in cases])}), {len(reqs)} model requests')
 
 
 # ---------------------------------------------------------------------------------------------------------------------
@@ -2469,6 +2929,7 @@ def h_shift(step, off):
 
 
 ORACLES.update({'dataSort-ref': o_data_sort_ref, 'arraySort-ref': o_sort_ref, 'host-base-equivalence': o_host_base})
+ORACLES.update({'arraySort-scale': o_sort_scale, 'dataSort-scale': o_data_sort_scale, 'mathMinMax-ref': o_minmax_ref, 'arrayIndexOf-ref': o_index_of_ref})
 
 
 # ---------------------------------------------------------------------------------------------------------------------
@@ -2527,6 +2988,8 @@ def replay(witness):
             return im.script(inp['text'], {}) != witness['expected']
         if inp['oracle'] == 'history':
             return bool(HistoryRunner(im).run(inp['history'])[0])
+        if 'packed_args' in inp:
+            inp = dict(inp, args=json.loads(zlib.decompress(base64.b64decode(inp['packed_args'])).decode('ascii')))
         args = [unspec_arg(a) for a in inp['args']]
         try:
             return ORACLES[inp['oracle']](im, *args) is not None
